@@ -240,6 +240,8 @@ def _has_var(e):
 def refute_by_sampling(ob, facts, tries=12, timeout_ms=3000, seed=0, budget_s=40.0):
     import random
     rnd = random.Random(seed)
+    if z3.is_quantifier(ob.goal) or any(z3.is_quantifier(h) or (z3.is_app(h) and any(z3.is_quantifier(c) for c in h.children())) for h in ob.hyps):
+        budget_s = min(budget_s, 12.0)       # quantified obligations rarely yield to value hints
     deadline = time.time() + budget_s
     base = list(ob.hyps) + (list(facts.items) + frac_lemmas(facts) if facts is not None else [])
     atoms = _atoms_for_hints(base + [ob.goal])
